@@ -119,6 +119,10 @@ def engine_mutable_fields(repo):
     return found
 
 
+class NoAnswer(Exception):
+    pass
+
+
 class XRunner(c07.Runner):
     """c07.Runner with the request header options of C11, the Isolation model's terms and the fork comparison."""
 
@@ -145,9 +149,39 @@ class XRunner(c07.Runner):
         opt = enums.BatchErrorContinuationOption.UNDO if undo else (enums.BatchErrorContinuationOption.CONTINUE if cont else None)
         return eng.build(items, version=ver, batch_option=opt, time_stamp=ts, asynchronous=asynchronous, ids=ids, max_size=max_size)
 
+    threaded = False          # True: the requests to the live engine are served by two long-lived worker threads in turn (as KmipSession threads do)
+    ANSWER_TIMEOUT = 8.0
+
     def send(self, eng, conc, who, ver, cont, stamp, asynchronous, undo, ids, max_size=None, live=True):
         req = self.build_request(eng, conc, ver, cont, stamp, asynchronous, undo, ids, max_size)
-        return eng.process(req, *c07.identity(who))
+        if not (self.threaded and live):
+            return eng.process(req, *c07.identity(who))
+        # Two long-lived worker threads serve the requests in turn (a finished thread's identifier may be handed to
+        # the next new thread, which would make it look like the owner of a lock the finished one left behind).
+        import threading, queue
+        if not hasattr(self, '_workers'):
+            self._workers, self._turn = [], 0
+            for _ in range(2):
+                q = queue.Queue()
+
+                def loop(q=q):
+                    while True:
+                        fn, box, done = q.get()
+                        try:
+                            box['r'] = fn()
+                        except BaseException as e:
+                            box['exc'] = e
+                        done.set()
+                threading.Thread(target=loop, daemon=True).start()
+                self._workers.append(q)
+        box, done = {}, threading.Event()
+        self._turn += 1
+        self._workers[self._turn % 2].put((lambda: eng.process(req, *c07.identity(who)), box, done))
+        if not done.wait(self.ANSWER_TIMEOUT):
+            raise NoAnswer('no answer within %.0f s' % self.ANSWER_TIMEOUT)
+        if 'exc' in box:
+            raise box['exc']
+        return box['r']
 
     # hooks for the connection-level runner
     def wrap(self, ev_term, out_term, r, next_uid, uids, max_size):
@@ -169,7 +203,19 @@ class XRunner(c07.Runner):
         if self.fork:
             other = fork_engine(eng, self.ctx.work)
             self.forks += 1
-        r = self.send(eng, conc, who, ver, cont, stamp, asynchronous, undo, ids, max_size, live=True)
+        try:
+            r = self.send(eng, conc, who, ver, cont, stamp, asynchronous, undo, ids, max_size, live=True)
+        except NoAnswer as e:
+            self.events.append({'ev': 'req', 'who': who, 'ver': list(ver), 'cont': cont, 'stamp': stamp, 'async': asynchronous,
+                                'undo': undo, 'ids': ids, 'max_size': max_size, 'items': [c07.strip(c) for c in conc], 'error': 'NO ANSWER'})
+            self.hits.append(({'kind': 'no-answer', 'threaded': True},
+                              {'history': list(self.events), 'probe_event': ev_index, 'threaded': True,
+                               'difference': {'what': str(e), 'live': 'the serving thread is still blocked', 'fresh': 'not asked'}},
+                              'request %d of the history (by %s, the requests of this history are served by two worker threads in turn) got %s '
+                              'from the live engine' % (ev_index, c07.who_name(who), e)))
+            if other is not None:
+                other.close()
+            raise
         after_next, after_uids = eng.next_uid(), eng.uids()
         classes = []
         if r['error'] is None:
@@ -472,8 +518,10 @@ class SessRunner(XRunner):
             out = 'STooLarge' if se['outcome'] == 'toolarge' else '(SAnswer %s)' % out_term
         return ev, 'SO (Some %s) %s %s' % (out, c07.zt(next_uid), cp.lst(uids, c07.zt))
 
-    def bad_frame(self, who):
-        """An undecodable message on the connection of `who`."""
+    def bad_frame(self, who, length=None):
+        """An undecodable message on the connection of `who`; with `length`, one whose header announces that many body
+        bytes (and carries them): around and above the 1 MiB the session calls its maximum request size."""
+        BAD_FRAME = globals()['BAD_FRAME'] if length is None else (b'\x42\x00\x78\x01' + int(length).to_bytes(4, 'big') + b'\x00' * int(length))
         other = fork_engine(self.eng, self.ctx.work) if self.fork else None
         r = self.exchange(self.eng, who, BAD_FRAME, (1, 2), True)
         if other is not None:
@@ -482,7 +530,7 @@ class SessRunner(XRunner):
                 r2 = self.exchange(other, who, BAD_FRAME, (1, 2), False)
                 d = diff_answers(r, r2)
                 if d:
-                    self.events.append({'ev': 'bad_frame', 'who': who, 'final': r['session']['final'],
+                    self.events.append({'ev': 'bad_frame', 'who': who, 'length': length, 'final': r['session']['final'],
                                         'reconnect_before': getattr(self, '_recon', [])})
                     self.hits.append(({'kind': 'live-differs-from-fresh', 'ops': ['undecodable-message']},
                                       {'history': list(self.events), 'probe_event': len(self.events) - 1, 'difference': d},
@@ -494,7 +542,8 @@ class SessRunner(XRunner):
         self.coq.append(('SBadF %d %d' % (r['session']['conn'], who),
                          'SO (Some %s) %s %s' % ('SInvalid' if r['session']['outcome'] == 'invalid' else '(SAnswer (XErr EVersion))',
                                                  c07.zt(self.eng.next_uid()), cp.lst(self.eng.uids(), c07.zt))))
-        self.events.append({'ev': 'bad_frame', 'who': who, 'final': r['session']['final'], 'reconnect_before': getattr(self, '_recon', [])})
+        self.events.append({'ev': 'bad_frame', 'who': who, 'length': length, 'final': r['session']['final'], 'reconnect_before': getattr(self, '_recon', [])})
+        self.ctx.count('event.bad_frame.%s' % ('garbage' if length is None else ('over_1MiB' if length > 1048576 else 'upto_1MiB')))
         self._recon = []
         self.ctx.count('event.bad_frame')
 
@@ -838,6 +887,12 @@ def conn_scenarios():
                 ('reconnect', 0), ('req', 0, (1, 2), False, [G(['ref', 0])], {}),
                 ('req', 0, (1, 2), False, [C], {'max_size': 10}), ('req', 0, (1, 2), False, [L], {}),
                 ('restart',), ('req', 0, (1, 2), False, [G(['ref', 0])], {})])
+    # messages that announce (and carry) about 1 MiB and more, then ordinary requests on the same connection
+    sc = [('req', 0, (1, 2), False, [C], {})]
+    for n_ in (1048568, 1048576, 1048577, 1048584, 3 * 1048576):
+        sc += [('bad', 0, n_), ('req', 0, (1, 2), False, [G(['ref', 0])], {}), ('req', 0, (1, 4), False, [L], {}),
+               ('req', 1, (1, 2), False, [L], {})]
+    out.append(sc)
     # versions
     sc = [('req', 0, (1, 2), False, [C], {})]
     for v in kdrv.VERSIONS:
@@ -880,7 +935,7 @@ def play_conn(run, script):
         if ev[0] == 'restart':
             run.restart()
         elif ev[0] == 'bad':
-            run.bad_frame(ev[1])
+            run.bad_frame(ev[1], ev[2] if len(ev) > 2 else None)
         elif ev[0] == 'reconnect':
             run.reconnect(ev[1])
         else:
@@ -933,7 +988,7 @@ def gen_conn_history(ctx, rng, run, length):
                             [{'op': 'addr', 'k': rng.choice(['AGetAttributeList', 'AGet']), 'tgt': tgt}], **kw)
                 n += 1
         elif x < 0.86:
-            run.bad_frame(who)
+            run.bad_frame(who, rng.choice([None, None, 1048568, 1048576, 1048577, 1048584, 2097152]))
         elif x < 0.92:
             run.reconnect(rng.choice([None, who]))
             continue
@@ -960,7 +1015,7 @@ def replay_events(run, events):
         if ev['ev'] == 'restart':
             run.restart()
         elif ev['ev'] == 'bad_frame':
-            run.bad_frame(ev['who'])
+            run.bad_frame(ev['who'], ev.get('length'))
         else:
             specs = [{k: v for k, v in it.items() if k in ('op', 'good', 'rich', 't', 'bases', 'tgt', 'w', 'k', 'variant', 'pol', 'prot', 'vs', 'funcs')}
                      for it in ev['items']]
@@ -1041,14 +1096,21 @@ def run(ctx):
     histories, all_hits = [], []
     forks = [0]
 
-    def one(script=None, seed_name=None, length=0):
+    def one(script=None, seed_name=None, length=0, threaded=False):
         eng = c07.new_engine(ctx.work)
         try:
             run_ = XRunner(ctx, eng)
-            if script is not None:
-                play(run_, script)
-            else:
-                gen_history(ctx, ctx.subrng(seed_name), run_, length, ckp_budget=1 if quick else 2)
+            run_.threaded = threaded
+            if threaded:
+                ctx.count('history.every_request_on_its_own_thread')
+            try:
+                if script is not None:
+                    play(run_, script)
+                else:
+                    gen_history(ctx, ctx.subrng(seed_name), run_, length, ckp_budget=1 if quick else 2)
+            except NoAnswer:
+                run_.coq = run_.coq[:len(run_.events) - 1]      # the history ends here; the hit is recorded
+                run_.events = run_.events[:len(run_.coq)]
             histories.append((cp.lst(['(%s, %s)' % p for p in run_.coq], str), run_.events))
             all_hits.extend(run_.hits)
             forks[0] += run_.forks
@@ -1065,11 +1127,12 @@ def run(ctx):
         finally:
             eng.close()
 
-    for sc in scenarios():
-        one(script=sc)
+    scs = scenarios()
+    for i, sc in enumerate(scs):
+        one(script=sc, threaded=(i >= len(scs) - 2))
     n_hist = 40 if quick else 300
     for k in range(n_hist):
-        one(seed_name='hist%d' % k, length=ctx.subrng('len%d' % k).randrange(10, 40))
+        one(seed_name='hist%d' % k, length=ctx.subrng('len%d' % k).randrange(10, 40), threaded=(k % 3 == 2))
     ctx.count('probe.live_vs_fresh_comparisons', forks[0])
     ctx.log('ran %d histories, %d events, %d live-vs-fresh comparisons' % (len(histories), sum(len(e) for _, e in histories), forks[0]))
 
@@ -1168,7 +1231,11 @@ def replay(ctx, data):
     try:
         conn_level = w.get('level') == 'connection'
         run_ = SessRunner(c07.NullCtx(ctx.work), eng, slugs=bool(w.get('slugs'))) if conn_level else XRunner(c07.NullCtx(ctx.work), eng)
-        replay_events(run_, events)
+        run_.threaded = bool(w.get('threaded'))
+        try:
+            replay_events(run_, [e for e in events if e.get('error') != 'NO ANSWER'] + [e for e in events if e.get('error') == 'NO ANSWER'])
+        except NoAnswer:
+            pass
         for sig, wit, what in run_.hits:
             print('REPRODUCED:', what)
         text = cp.lst(['(%s, %s)' % p for p in run_.coq], str)
